@@ -444,6 +444,13 @@ func (te *tableEngine) PlayerRedeemChips(joinPlayer JoinPlayer) error {
 	}
 
 	playerState := te.table.State.PlayerStates[playerIdx]
+
+	// a busted player who buys chips is eligible for the next hand (same as the re-buy path of PlayerReserve)
+	if playerState.Bankroll+joinPlayer.RedeemChips > 0 {
+		if err := te.sm.UpdatePlayerHasChips(playerState.PlayerID, true); err != nil {
+			return err
+		}
+	}
 	playerState.Bankroll += joinPlayer.RedeemChips
 
 	te.emitEvent("PlayerRedeemChips", joinPlayer.PlayerID)
